@@ -54,6 +54,7 @@ TYPED = {
     'year': [2020, 1999, None],
     'array': [[1, 2], [], None],
     'object': [{'a': 1}, {}, None],
+    'duration': [datetime.timedelta(days=1), datetime.timedelta(hours=2, minutes=30), datetime.timedelta(seconds=5), None],
 }
 
 
@@ -140,10 +141,10 @@ def run_case(case):
     elif fam == 'matrix_join':
         agg = rng.choice(['sum', 'avg', 'median', 'min', 'max', 'first', 'last', 'count', 'counters', 'set',
                           'array', 'any'])
-        allowed = {'sum': ['integer', 'number', 'string'], 'avg': ['integer', 'number'],
-                   'median': ['integer', 'number'], 'min': ['integer', 'number', 'string', 'date'],
-                   'max': ['integer', 'number', 'string', 'date']}.get(
-            agg, ['integer', 'number', 'string', 'date', 'boolean', 'datetime', 'year'])
+        allowed = {'sum': ['integer', 'number', 'string', 'duration'], 'avg': ['integer', 'number', 'duration'],
+                   'median': ['integer', 'number', 'duration'], 'min': ['integer', 'number', 'string', 'date', 'duration'],
+                   'max': ['integer', 'number', 'string', 'date', 'duration']}.get(
+            agg, ['integer', 'number', 'string', 'date', 'boolean', 'datetime', 'year', 'duration'])
         ftyp = rng.choice(allowed)
         src = typed_table(rng, [('k', 'integer'), ('v', ftyp)], rng.choice([1, 4, 12]))
         for r in src:
@@ -155,6 +156,15 @@ def run_case(case):
         label = 'join/%s/%s' % (agg, ftyp)
         sf = [{'name': 'id', 'type': 'integer'}, {'name': 'k', 'type': 'integer'}, {'name': 'v', 'type': ftyp}]
         tf = [{'name': 'id', 'type': 'integer'}, {'name': 'k', 'type': 'integer'}]
+        if rng.random() < 0.3:
+            # the source field is declared required (and has no nulls): target rows without a match still get null
+            for r in src:
+                if r['v'] is None:
+                    r['v'] = next(x for x in TYPED[ftyp] if x is not None)
+                    if isinstance(r['v'], float):
+                        r['v'] = D(str(r['v']))
+            sf[2]['constraints'] = {'required': True}
+            label += '/required_source_field'
         if mode == 'dedup':
             mk = lambda e: [lab.source('src', sf, src),                                        # noqa: E731
                             d.join_with_self('src', ['k'], {'k': None, 'o': {'name': 'v', 'aggregate': agg}})]
@@ -165,8 +175,19 @@ def run_case(case):
     elif fam == 'matrix_misc':
         kind = rng.choice(['concatenate', 'unpivot', 'set_type', 'find_replace', 'duplicate_alias', 'load_csv',
                            'twin_isolation', 'twin_isolation', 'rename_chain', 'multi_then_single',
-                           'multi_then_single', 'pk_then_field_op'])
-        if kind == 'concatenate':
+                           'multi_then_single', 'pk_then_field_op', 'load_package_extract_missing'])
+        if kind == 'concatenate' and rng.random() < 0.4:
+            # a required field that only ONE of the concatenated resources has
+            a = [{'id': i, 'v': 'x%d' % i} for i in range(3)]
+            b = [{'id': 10 + i} for i in range(2)]
+            fa = [{'name': 'id', 'type': 'integer'}, {'name': 'v', 'type': 'string', 'constraints': {'required': True}}]
+            fb = [{'name': 'id', 'type': 'integer'}]
+            order = rng.random() < 0.5
+            mk = lambda e: ([lab.source('a', fa, a), lab.source('b', fb, b)] if order else                  # noqa: E731
+                            [lab.source('b', fb, b), lab.source('a', fa, a)]) + \
+                [d.concatenate({'id': [], 'v': []}, target={'name': 'c', 'path': 'c.csv'})]
+            label = 'concatenate/required_in_one_source'
+        elif kind == 'concatenate':
             ftyp = rng.choice(sorted(TYPED))
             a = typed_table(rng, [('v', ftyp)], 3)
             b = typed_table(rng, [('w', ftyp)], 4)
@@ -226,6 +247,13 @@ def run_case(case):
                                                      regex=False, resources=which)}[opk]()
             mk = lambda e: [lab.source('t', fl, rows), d.duplicate('t', 't2', duplicate_to_end=to_end), twin_step()]  # noqa
             label = 'twin_isolation/%s/%s' % (opk, 'copy' if which == 't2' else 'original')
+        elif kind == 'load_package_extract_missing':
+            # extract_missing_values on a data package source: the extra field is declared like for any other source
+            with boot.quiet():
+                d.Flow([{'a': 1, 'b': 'x'}, {'a': None, 'b': 'y'}, {'a': 3, 'b': None}], d.dump_to_path('emv')).process()
+            opt = rng.choice([True, {'values': ['']}, {'target': 'mv'}])
+            mk = lambda e: [d.load('emv/datapackage.json', extract_missing_values=copy.deepcopy(opt)), d.validate()]   # noqa
+            label = 'load_package/extract_missing_values'
         elif kind == 'pk_then_field_op':
             # a field-level step touches a primary-key field: the emitted primaryKey must keep naming declared fields
             rows = [{'id': i, 'v': i % 3, 'w': 'abc'[i % 3], 'x': i * 2} for i in range(rng.choice([1, 6, 30]))]
@@ -327,7 +355,8 @@ def run_case(case):
         # autoname: several sources whose automatic names coincide (files with the same base name in different
         # directories; sources(...) of several iterables, also after earlier resources) - with DIFFERENT schemas
         variant = rng.choice(['load_same_basename', 'load_same_file_twice', 'sources_iterables', 'sources_after_iterables',
-                              'sources_mixed', 'load_package_same_name', 'load_tuple_same_name'])
+                              'sources_mixed', 'load_package_same_name', 'load_tuple_same_name', 'concatenate_twice',
+                              'duplicate_twice'])
         its = [[{'id': i, 'v%d' % j: 'x' * (j + 1)} for i in range(2 + j)] for j in range(4)]
 
         def csv_at(dirname, j):
@@ -336,7 +365,14 @@ def run_case(case):
             with open(path, 'w') as f:
                 f.write('id,w%d\n' % j + ''.join('%d,%s\n' % (i, 'abc'[j % 3]) for i in range(3 + j)))
             return path
-        if variant == 'load_package_same_name':
+        if variant == 'concatenate_twice':
+            # two concatenate() steps that both use the default target name
+            mk = lambda e: [copy.deepcopy(x) for x in its[:4]] + [                                  # noqa: E731
+                d.concatenate({'id': []}, resources=['res_1', 'res_2']), d.concatenate({'id': []}, resources=['res_3', 'res_4']),
+                d.validate()]
+        elif variant == 'duplicate_twice':
+            mk = lambda e: [copy.deepcopy(its[0]), d.duplicate(), d.duplicate(), d.validate()]      # noqa: E731
+        elif variant == 'load_package_same_name':
             # a package saved by an earlier flow (its resource was auto-named res_1) is loaded after an iterable of this flow
             with boot.quiet():
                 d.Flow([{'c': 1.5}, {'c': 2.5}], d.dump_to_path('saved')).process()
